@@ -30,6 +30,17 @@ func classCompatible(refc, implc string) bool {
 // diffProg runs src on the implementation and prog on the reference and compares trace and class.
 // skip=true when the reference declares latitude / resource limits (nothing is judged).
 func diffProg(w *fw.Worker, sub, src string, prog *pt.Prog, inputs []string) (v *fw.Violation, skip bool) {
+	if err := ref.Check(prog); err != nil {
+		// not a well-typed program by the reference rules (or latitude): outside this oracle's domain
+		if w != nil {
+			if _, lat := err.(*ref.LatitudeErr); lat {
+				w.Count("ref-skip:latitude-static", 1)
+			} else {
+				w.Count("ref-skip:ill-typed", 1)
+			}
+		}
+		return nil, true
+	}
 	ro := ref.RunProg(prog, ref.Opts{Inputs: inputs})
 	switch ro.Class {
 	case "latitude", "resource", "budget":
